@@ -32,10 +32,14 @@ func init() {
 			o.Vbs = 2
 			o.CheckpointType = "manual"
 			var shared *config.Dcp
+			var wantHosts []string
 			o.Tweak = func(cfg *config.Dcp) {
 				cfg.Metadata.Config["password"] = "meta-secret"
 				cfg.Metadata.Config["username"] = "meta-user"
 				cfg.Metadata.Config["scope"] = "s1"
+				// several seed nodes, NOT in lexicographic order; the metadata settings inherit them
+				cfg.Hosts = []string{"zeta.example:8091", cfg.Hosts[0], "alpha.example:8091"}
+				wantHosts = append([]string{}, cfg.Hosts...)
 				shared = cfg
 			}
 			c := NewCluster(&o.EnvOpts)
@@ -47,6 +51,9 @@ func init() {
 				m := shared.GetCouchbaseMetadata()
 				if m.Password != "meta-secret" || m.Username != "meta-user" || m.Scope != "s1" {
 					vrt.Failf("%s: the derived metadata settings read (user %q, password %q, scope %q), configured were (meta-user, meta-secret, s1)", when, m.Username, m.Password, m.Scope)
+				}
+				if fmt.Sprint(shared.Hosts) != fmt.Sprint(wantHosts) || fmt.Sprint(m.Hosts) != fmt.Sprint(wantHosts) {
+					vrt.Failf("%s: the explicitly set seed nodes read %v (metadata settings: %v), configured were %v", when, shared.Hosts, m.Hosts, wantHosts)
 				}
 				if shared.Password != "p" || shared.Username != "u" || shared.BucketName != srcBucket {
 					vrt.Failf("%s: explicitly set connection options read (%q, %q, %q)", when, shared.Username, shared.Password, shared.BucketName)
